@@ -51,6 +51,9 @@ func registry() map[string]*Rule {
 		{Name: "KEY5", Floor: 2, Run: ruleKEY5, Doc: "specialised on reverse = true, every Cursor.Seek target in a scan function ends in the 0xFF upper sentinel"},
 		{Name: "IDX6", Floor: 4, Run: ruleIDX6, Doc: "index maintenance is unconditional per (document, index): every iteration of a loop over the indexes reaches Index.Add/Remove, and a per-document build callback cannot return success without it"},
 		{Name: "PLAN7", Floor: 2, Run: rulePLAN7, Doc: "the flag that elides the in-memory sort is set only where the query has exactly one sort option and its field equals the field of the index scanned"},
+		{Name: "CG1", Floor: 0, Run: ruleCG1, Doc: "thorough tier: every library target the whole-program VTA call graph finds for a dynamic call site is accounted for by the effect summaries"},
+		{Name: "ADP4", Floor: 5, Run: ruleADP4, Doc: "byte slices handed to Tx.Set/Tx.Delete are not built on a reused buffer (struct field or package variable): badger retains them until Commit, bbolt copies"},
+		{Name: "KEY6", Floor: 3, Run: ruleKEY6, Doc: "every item passed to orderedcode.Append is self-delimiting (never TrailingString), since keys continue after the encoded value"},
 	}
 	m := map[string]*Rule{}
 	for _, r := range rules {
@@ -141,8 +144,8 @@ func propertyTable() map[string]*Property {
 		},
 		"C10": {
 			Technique:   tSSA + "type-tag abstract interpretation of TypeId/Compare/OrderedCode over the 9x9 canonical type pairs, arithmetic-pattern check, key-template order check",
-			Rules:       []string{"CMP1", "CMP2", "CMP3", "KEY4"},
-			Explanation: "Decides structural clauses of C10: the type ranking is nil < number < string < object < array < bool < time with single-digit ranks (CMP1, decided completely by abstract evaluation of TypeId on each canonical type); the comparator contains no subtraction of unbounded integers and no unguarded sign conversion (CMP2: no overflow-induced sign errors at the int64/uint64/time extremes); for all 81 pairs of canonical dynamic types Compare reaches a return, never a failing assertion, and different classes are ordered by rank alone (CMP3); in index keys the rank precedes the encoded value and both come from the same value (KEY4).",
+			Rules:       []string{"CMP1", "CMP2", "CMP3", "KEY4", "KEY6"},
+			Explanation: "Decides structural clauses of C10: the type ranking is nil < number < string < object < array < bool < time with single-digit ranks (CMP1, decided completely by abstract evaluation of TypeId on each canonical type); the comparator contains no subtraction of unbounded integers and no unguarded sign conversion (CMP2: no overflow-induced sign errors at the int64/uint64/time extremes); for all 81 pairs of canonical dynamic types Compare reaches a return, never a failing assertion, and different classes are ordered by rank alone (CMP3); in index keys the rank precedes the encoded value and both come from the same value (KEY4), and every encoded item is self-delimiting so that the document id appended after it cannot change the order of prefix-related values (KEY6).",
 			NotDecided:  "Transitivity as such, lexicographic container order, and agreement between Compare and the orderedcode byte order (-0.0, float widening, times before 1970): statements about an encoding function's values.",
 			Assumptions: commonAssumptions,
 		},
@@ -176,8 +179,8 @@ func propertyTable() map[string]*Property {
 		},
 		"C15": {
 			Technique:   tSSA + "sibling cross-check of the store adapters (not-found mapping, cursor validity), error rules inside adapters",
-			Rules:       []string{"ADP1", "ADP2", "ADP3", "ERR1~^store/", "ERR2~^store/"},
-			Explanation: "Decides structural clauses of C15: both Tx.Get implementations map absence to (nil, nil) (ADP1); no Cursor implementation makes position validity depend on the value, so keys with empty values are visible on both backends (ADP2); only the adapter packages call the backend APIs (ADP3); adapters drop or convert no backend error other than the not-found mapping (ERR1, ERR2).",
+			Rules:       []string{"ADP1", "ADP2", "ADP3", "ADP4", "ERR1~^store/", "ERR2~^store/"},
+			Explanation: "Decides structural clauses of C15: both Tx.Get implementations map absence to (nil, nil) (ADP1); no Cursor implementation makes position validity depend on the value, so keys with empty values are visible on both backends (ADP2); only the adapter packages call the backend APIs (ADP3); keys and values handed to the store are freshly allocated, never a reused scratch buffer, which badger (retains the slice until Commit) and bbolt (copies) treat differently (ADP4); adapters drop or convert no backend error other than the not-found mapping (ERR1, ERR2).",
 			NotDecided:  "Everything else: equality of the results of identical histories on two backends and the seek contract for all key sets are runtime comparisons (DESIGN §6 lists a reverse-seek defect this family does not reach).",
 			Assumptions: commonAssumptions,
 		},
